@@ -496,6 +496,10 @@ fn is_number(arg: &str) -> bool {
     // digits plus an optional single dot after some digits.
     //
     // For floats allow forms such as `1.`, `1.2`, `1.2e10`, etc.
+    if arg.is_empty() {
+        // A lone `-` is stdio, not a number
+        return false;
+    }
     let mut seen_dot = false;
     let mut position_of_e = None;
     for (i, c) in arg.as_bytes().iter().enumerate() {
